@@ -47,6 +47,9 @@ enum Cmd { Run(i64), Stop }
 struct Have { serial: u32, etag: String, date: String }
 
 pub fn main(args: &Args) -> i32 {
+    if let Some(out) = args.opt("freerun") {
+        return freerun(args, out)
+    }
     let behaviours = read_behaviours(args.input.as_deref().expect("--in"));
     let mut rep = Report::new("serve");
     for p in PROPS { rep.touch(p); }
@@ -456,4 +459,77 @@ fn atomicity_probe(rep: &mut Report, gate: &std::sync::Arc<Gate>, round: usize) 
     let _ = tx.send(Cmd::Stop);
     let _ = updater.join();
     let _ = history;
+}
+
+
+/// Free-running server: one updater doing a few updates while reader threads
+/// hammer HTTP and RTR.  The events recorded by the hooks (under the history
+/// lock) are written as one ndjson trace for `Trace_Serve.tla`; the responses
+/// are checked against the data set installed under their serial.
+fn freerun(args: &Args, out: &str) -> i32 {
+    use std::io::Write;
+    use std::sync::atomic::{AtomicBool, Ordering};
+    let rounds = args.opt_usize("rounds", 20);
+    let mut rep = Report::new("serve");
+    rep.touch("C15");
+    let mut file = std::fs::File::create(out).expect("trace file");
+    let mut rng = crate::common::Rng::new(args.seed);
+    for round in 0..rounds {
+        let mut fx = Fixture::start(|c| { c.history_size = 10; });
+        let port = fx.http_port;
+        let rtr_port = fx.rtr_port;
+        routinator::verif::trace_start();
+        let stop = std::sync::Arc::new(AtomicBool::new(false));
+        let (rtx, rrx) = mpsc::channel::<(String, u32, DataSet)>();
+        let mut readers = Vec::new();
+        for r in 0..3 {
+            let stop = stop.clone();
+            let rtx = rtx.clone();
+            readers.push(std::thread::spawn(move || {
+                while !stop.load(Ordering::Relaxed) {
+                    if r < 2 {
+                        if let Ok(resp) = http_get(port, "/json", &[]) {
+                            if resp.status == 200 {
+                                let ts: Option<u32> = resp.header("etag").unwrap_or("").trim_matches('"').rsplit_once('-').and_then(|x| x.1.parse().ok());
+                                if let (Some(ts), Ok(ds)) = (ts, body_dataset(&resp.body)) { let _ = rtx.send(("http".into(), ts, ds)); }
+                            }
+                        }
+                    } else {
+                        let a = rtr_query(rtr_port, None, Duration::from_secs(5));
+                        if a.kind == "cache-response" { let _ = rtx.send(("rtr".into(), a.serial, rtr_dataset(&a.items).0)); }
+                    }
+                }
+            }));
+        }
+        drop(rtx);
+        // the updater: data sets 1/2/3 in a seeded random order, sometimes unchanged
+        let mut installed: Vec<DataSet> = Vec::new();
+        let mut cur = 0i64;
+        for u in 0..6 {
+            let d = if u == 0 { 1 + rng.below(3) as i64 } else if rng.below(4) == 0 { cur } else { 1 + ((cur + rng.below(2) as i64) % 3) };
+            if d != cur { installed.push(concrete(d).into_iter().collect()); }
+            cur = d;
+            let _ = fx.process_once(&slurm(&concrete(d)), u == 0);
+            std::thread::sleep(Duration::from_millis(3 + rng.below(8)));
+        }
+        stop.store(true, Ordering::Relaxed);
+        for r in readers { let _ = r.join(); }
+        let events = routinator::verif::trace_take();
+        writeln!(file, "{{\"ev\":\"Reset\",\"seq\":0,\"t\":\"\"}}").unwrap();
+        for e in &events { writeln!(file, "{e}").unwrap(); }
+        rep.add_note("C15", "trace_events", events.len() as u64 + 1);
+        // responses against the installed data sets (serial k = k-th distinct data set)
+        for (kind, serial, ds) in rrx.try_iter() {
+            rep.eval("C15");
+            match installed.get(serial as usize) {
+                Some(exp) if *exp == ds => {}
+                _ => rep.violation("C15", &format!("{kind}-serial-data-mismatch/free-running"),
+                        format!("a {kind} response tagged serial {serial} carries data that is not the data set installed under that serial"),
+                        json!({"round": round, "seed": args.seed}), json!({"serial": serial, "data": format!("{:?}", ds)})),
+            }
+        }
+        rep.trace("C15");
+        rep.nontrivial("C15", format!("freerun-{round}"));
+    }
+    rep.write(args)
 }
